@@ -7,6 +7,7 @@ import (
 	"fmt"
 	"go/token"
 	"go/types"
+	"regexp"
 	"sort"
 	"strings"
 
@@ -31,7 +32,22 @@ func qualifier(p *types.Package) string {
 	return strings.TrimPrefix(path, modPrefix)
 }
 
-func typeName(t types.Type) string { return types.TypeString(t, qualifier) }
+var reByteRune = regexp.MustCompile(`\b(byte|rune)\b`)
+
+// typeName: canonical printed form of a Go type (byte/rune are printed as uint8/int32, so that the
+// aliases never name two different heap components for the same memory).
+func typeName(t types.Type) string {
+	s := types.TypeString(t, qualifier)
+	if strings.Contains(s, "byte") || strings.Contains(s, "rune") {
+		s = reByteRune.ReplaceAllStringFunc(s, func(m string) string {
+			if m == "byte" {
+				return "uint8"
+			}
+			return "int32"
+		})
+	}
+	return s
+}
 
 // q quotes an SMT symbol.
 func q(s string) string {
@@ -43,16 +59,16 @@ func q(s string) string {
 // ---------------------------------------------------------------------------------------------
 
 type Obligation struct {
-	Name     string
-	Kind     string // post, inv-entry, inv-preserve, dec, pre, safe, frame, panic, dispatch, lemma, vacuity
-	Fn       string
-	Goal     string // SMT Bool term; query is: asserts[:NAssert] /\ not Goal
-	NAssert  int
-	Pos      token.Position
-	Desc     string
+	Name      string
+	Kind      string // post, inv-entry, inv-preserve, dec, pre, safe, frame, panic, dispatch, lemma, vacuity
+	Fn        string
+	Goal      string // SMT Bool term; query is: asserts[:NAssert] /\ not Goal
+	NAssert   int
+	Pos       token.Position
+	Desc      string
 	ExpectSat bool // vacuity / cover obligations
-	Props    []string
-	vc       *VC
+	Props     []string
+	vc        *VC
 	// results
 	Status  string // unsat | sat | unknown | timeout | error
 	Solver  string
@@ -67,29 +83,29 @@ type Obligation struct {
 // VC accumulates one SMT context (declarations + assertions in order) for one function under
 // verification; each obligation is a prefix of that context plus a negated goal.
 type VC struct {
-	prog     *Program
-	fnName   string
-	declared map[string]bool
-	compSorts map[string]string
-	nonNil   map[string]bool
-	compTypes map[string]types.Type
-	knownTag map[string]int
+	prog        *Program
+	fnName      string
+	declared    map[string]bool
+	compSorts   map[string]string
+	nonNil      map[string]bool
+	compTypes   map[string]types.Type
+	knownTag    map[string]int
 	boxedLocals []boxed
-	regions  map[string]string
-	arrayLits map[string][]string
-	deferred []string
-	asserts  []string
-	obligs   []*Obligation
-	counter  int
-	notes    []string // inlined functions, assumed contracts, havocked calls...
-	inlined  map[string]bool
-	assumed  map[string]bool
-	havocked map[string]bool
-	props    []string
-	structs  map[string]bool
-	litCache map[string]string
-	tags     map[string]int
-	fnIDs    map[*ssa.Function]int
+	regions     map[string]string
+	arrayLits   map[string][]string
+	deferred    []string
+	asserts     []string
+	obligs      []*Obligation
+	counter     int
+	notes       []string // inlined functions, assumed contracts, havocked calls...
+	inlined     map[string]bool
+	assumed     map[string]bool
+	havocked    map[string]bool
+	props       []string
+	structs     map[string]bool
+	litCache    map[string]string
+	tags        map[string]int
+	fnIDs       map[*ssa.Function]int
 }
 
 func newVC(p *Program, name string) *VC {
@@ -413,10 +429,10 @@ type Val struct {
 }
 
 type State struct {
-	cells map[*ssa.Alloc]string
-	heap  map[string]string
-	alloc string
-	wr    *writeRec // dry runs: what has been written on the way to this state
+	cells  map[*ssa.Alloc]string
+	heap   map[string]string
+	alloc  string
+	wr     *writeRec // dry runs: what has been written on the way to this state
 	defers []deferRec
 }
 
@@ -461,12 +477,12 @@ func (vc *VC) comp(st *State, name, sort string, vt ...types.Type) string {
 }
 
 func fieldComp(structName, field string) string { return "F " + structName + "." + field }
-func elemComp(elem types.Type) string            { return "E " + typeName(elem) }
-func cellComp(t types.Type) string               { return "C " + typeName(t) }
-func globalComp(g *ssa.Global) string            { return "G " + qualifier(g.Pkg.Pkg) + "." + g.Name() }
-func mapDomComp(m *types.Map) string             { return "Mdom " + typeName(m) }
-func mapValComp(m *types.Map) string             { return "Mval " + typeName(m) }
-func mapCardComp(m *types.Map) string            { return "Mcard " + typeName(m) }
+func elemComp(elem types.Type) string           { return "E " + typeName(elem) }
+func cellComp(t types.Type) string              { return "C " + typeName(t) }
+func globalComp(g *ssa.Global) string           { return "G " + qualifier(g.Pkg.Pkg) + "." + g.Name() }
+func mapDomComp(m *types.Map) string            { return "Mdom " + typeName(m) }
+func mapValComp(m *types.Map) string            { return "Mval " + typeName(m) }
+func mapCardComp(m *types.Map) string           { return "Mcard " + typeName(m) }
 
 func (vc *VC) fieldCompSort(ft types.Type) string { return "(Array Int " + vc.sortOf(ft) + ")" }
 func (vc *VC) elemCompSort(et types.Type) string {
@@ -510,7 +526,9 @@ func (vc *VC) mergeStates(conds []string, states []*State) *State {
 	for k := range cellKeys {
 		cks = append(cks, k)
 	}
-	sort.Slice(cks, func(i, j int) bool { return cks[i].Pos() < cks[j].Pos() || (cks[i].Pos() == cks[j].Pos() && cks[i].Name() < cks[j].Name()) })
+	sort.Slice(cks, func(i, j int) bool {
+		return cks[i].Pos() < cks[j].Pos() || (cks[i].Pos() == cks[j].Pos() && cks[i].Name() < cks[j].Name())
+	})
 	for _, k := range cks {
 		var ts []string
 		all := true
